@@ -19,6 +19,13 @@ pub mod c03;
 pub mod c06;
 pub mod c07;
 pub mod c08;
+pub mod c19;
+pub mod canon;
+pub mod faultio;
+pub mod sermodels;
+pub mod serial;
+pub mod c18;
+pub mod c05;
 
 use report::{Args, Report};
 
@@ -31,6 +38,9 @@ pub fn dispatch(cmd: &str, args: &Args, rep: &mut Report) -> bool {
         "C06" => c06::run(args, rep),
         "C07" => c07::run(args, rep),
         "C08" => c08::run(args, rep),
+        "C19" => c19::run(args, rep),
+        "C18" => c18::run(args, rep),
+        "C05" => c05::run(args, rep),
         "try" => trycmd(args),
         "probe" => probecmd(args),
         _ => return false,
